@@ -1,6 +1,7 @@
 //! Correspondence harness: reads case lines "<id> <kind> ...", runs them against the real
 //! flexi_logger (public API, hooks on) and prints "<id> <observation>" per case.
 mod flw;
+mod lg;
 mod util;
 
 use std::io::BufRead;
@@ -9,6 +10,7 @@ fn main() {
     let args: Vec<String> = std::env::args().collect();
     std::panic::set_hook(Box::new(|_| {}));
     util::install_error_channel();
+    let mut real_out = util::redirect_std();
     let reader: Box<dyn BufRead> = if args.len() > 1 {
         Box::new(std::io::BufReader::new(std::fs::File::open(&args[1]).unwrap()))
     } else {
@@ -26,6 +28,9 @@ fn main() {
         let id = toks[0];
         let out = match std::panic::catch_unwind(|| match toks[1] {
             "flw" => flw::run_case(id, &toks[2..]),
+            "spec" => lg::run_spec(&toks[2..]),
+            "specb" => lg::run_specb(&toks[2..]),
+            "lg" => lg::run_lg(id, &toks[2..]),
             k => format!("HARNESS-ERROR unknown kind {k}"),
         }) {
             Ok(s) => s,
@@ -34,7 +39,10 @@ fn main() {
                 e.downcast_ref::<String>().cloned().or_else(|| e.downcast_ref::<&str>().map(|s| s.to_string())).unwrap_or_default()
             ),
         };
-        println!("{id} {out}");
+        {
+            use std::io::Write;
+            writeln!(real_out, "{id} {out}").unwrap();
+        }
     }
     util::cleanup_scratch();
 }
